@@ -851,7 +851,10 @@ class Run:
         name, a = self.heap.carr(t, "len")
         self.heap.set(name, z3.Store(a, out.z, cnt))
         arr = H.fresh("lc_elems", z3.ArraySort(H.I, T.sort(v.ty)))
-        self.assume(z3.ForAll([i], z3.Implies(z3.And(0 <= i, i < cnt), z3.Select(arr, i) == v.z), patterns=[z3.Select(arr, i)]))
+        pats = [z3.Select(arr, i)]
+        if isinstance(x, SV) and _mentions(x.z, i) and not z3.is_const(x.z):
+            pats.append(x.z)  # alternative trigger: the source element (facts stated over the source list reach the mapped one)
+        self.assume(z3.ForAll([i], z3.Implies(z3.And(0 <= i, i < cnt), z3.Select(arr, i) == v.z), patterns=pats))
         self.heap._upd(t, "elem", out.z, arr)
         return out
 
@@ -1399,7 +1402,7 @@ class Run:
                 return self.call_method(v, "__len__", [], {})
             raise Reject("len of %r" % (v,))
         if name in ("min", "max") and len(args) == 1:
-            return self.min_max_over(name, args[0])
+            return self.min_max_over(name, args[0], kwargs.get("key"))
         if name in ("min", "max"):
             cur = args[0]
             for nxt in args[1:]:
@@ -1634,11 +1637,14 @@ class Run:
             fr.env.update(saved)
         return out
 
-    def min_max_over(self, name, v):
-        """min(xs) / max(xs) over a list: ValueError when empty, otherwise an element that no other element
-        beats (python returns the first such element; only extremality and membership are modelled)."""
+    def min_max_over(self, name, v, key=None):
+        """min(xs) / max(xs[, key=lambda]) over a list: ValueError when empty, otherwise an element that no other
+        element beats under the key (python returns the first such element; only extremality and membership are
+        modelled)."""
         if not (isinstance(v, SV) and isinstance(v.ty, T.List)):
             raise Reject("%s over %r" % (name, v))
+        if key is not None and (not isinstance(key, LambdaVal) or len(key.node.args.args) != 1):
+            raise Reject("%s with a key that is not a one-argument lambda" % name)
         t = v.ty
         n = self.heap.c_len(t, v.z)
         if self.choose(n == 0):
@@ -1650,6 +1656,8 @@ class Run:
         j = z3.Int(H.fresh_name("mm_j"))
         if getattr(self, "qctx", None) is not None:
             raise Reject("min/max inside comprehension")
+        fr = self.frames[-1]
+        saved = dict(fr.env)
         rng = z3.And(0 <= j, j < n)
         self.qctx = ([j], rng)
         self._q_pending = []
@@ -1660,12 +1668,24 @@ class Run:
         old = getattr(self, "no_fork", False)
         self.no_fork = True
         try:
-            ej = SV(t.elem, self.heap.l_elem(t, v.z, j))
+            # select-over-store of a freshly built list is reduced so that the element term is the one the
+            # list's defining facts are triggered by
+            ej = SV(t.elem, z3.simplify(self.heap.l_elem(t, v.z, j)))
+            self._q_elem = ej.z
             for f in self.type_facts(ej):
                 self.assume(f)
-            beats = self.order("Lt", ej, r) if name == "min" else self.order("Gt", ej, r)
+            if key is None:
+                kj, kr = ej, r
+            else:
+                pname = key.node.args.args[0].arg
+                fr.env[pname] = ej
+                kj = self.ev(key.node.body)
+                fr.env[pname] = r
+                kr = self.ev(key.node.body)
+            beats = self.order("Lt", kj, kr) if name == "min" else self.order("Gt", kj, kr)
             self.assume(z3.Not(beats))
         finally:
+            self._q_elem = None
             self.no_fork = old
             self.qctx = None
             self.solver.pop()
@@ -1673,6 +1693,8 @@ class Run:
             for b_ in self._q_pending:
                 self.solver.add(b_)
             self._q_pending = []
+            fr.env.clear()
+            fr.env.update(saved)
         return r
 
     def isinstance_(self, v, c):
